@@ -37,6 +37,15 @@ def parseSub (j : Json) : Except String AnySub := do
   | "loop" => pure (.loop (← (a[1]?.getD Json.null).getInt?) (← (a[2]?.getD Json.null).getInt?))
   | k => throw s!"bad-sub {k}"
 
+def toASub : AnySub → ASub
+  | .fixed f => .fixed f
+  | .loop m o => .loop m o
+
+def parseLevel (j : Json) : Except String Level := do
+  let dims ← (← getArr j "dims").toList.mapM (·.getNat?)
+  let subs ← (← getArr j "subs").toList.mapM parseSub
+  pure ⟨dims, subs.map toASub⟩
+
 def toSubs : List AnySub → Except String Subs
   | [.fixed a] => pure (.f1 a)
   | [.loop m o] => pure (.l1 m o)
@@ -75,12 +84,18 @@ def handle (req : Json) : Except String Json := do
   | "index.outcome" => do
     let cj ← getObj req "cfg"
     let cfg : Cfg := ⟨← getBool cj "sliceCheck", ← getBool cj "loopCheck", ← getBool cj "stepOrder"⟩
-    let dims ← toDims (← (← getArr req "dims").toList.mapM (·.getNat?))
-    let subs ← toSubs (← (← getArr req "subs").toList.mapM parseSub)
     let loop ← parseLoop ((req.getObjVal? "loop").toOption.getD Json.null)
     let isSum := (req.getObjValAs? Bool "sum").toOption.getD false
     let pad := (cj.getObjValAs? Bool "padMissing").toOption.getD false
-    match (if pad then outcomePadded cfg ⟨dims, subs, loop⟩ else outcome cfg ⟨dims, subs, loop⟩) with
+    let res ← match (req.getObjVal? "levels").toOption with
+      | some lv => do
+        let levels ← (← lv.getArr?).toList.mapM parseLevel
+        pure (outcomeNested cfg levels loop)
+      | none => do
+        let dims ← toDims (← (← getArr req "dims").toList.mapM (·.getNat?))
+        let subs ← toSubs (← (← getArr req "subs").toList.mapM parseSub)
+        pure (if pad then outcomePadded cfg ⟨dims, subs, loop⟩ else outcome cfg ⟨dims, subs, loop⟩)
+    match res with
     | none => pure (Json.mkObj [("ok", true), ("outcome", "error")])
     | some rows =>
       let rows := if isSum then sumRows rows else rows
